@@ -4,6 +4,7 @@ package main
 // go/types objects, never by text.
 
 import (
+	"encoding/json"
 	"fmt"
 	"go/ast"
 	"go/token"
@@ -56,6 +57,21 @@ func Load(thorough bool) (*Prog, error) {
 	dir := repoDir()
 	env := os.Environ()
 	cfg := &packages.Config{Mode: mode, Dir: dir, Tests: false, Env: env}
+	// Overlay (self-test only): analyse a variant of the tree held in memory.
+	if ov := os.Getenv("GRIBILINT_OVERLAY"); ov != "" {
+		b, err := os.ReadFile(ov)
+		if err != nil {
+			return nil, fmt.Errorf("overlay: %v", err)
+		}
+		m := map[string]string{}
+		if err := json.Unmarshal(b, &m); err != nil {
+			return nil, fmt.Errorf("overlay: %v", err)
+		}
+		cfg.Overlay = map[string][]byte{}
+		for rel, content := range m {
+			cfg.Overlay[filepath.Join(dir, rel)] = []byte(content)
+		}
+	}
 	pkgs, err := packages.Load(cfg, "./...")
 	if err != nil {
 		return nil, fmt.Errorf("packages.Load: %v", err)
